@@ -257,6 +257,9 @@ func (e *Eval) applyContract(fr *Frame, k *Contract, pkg *ssa.Package, pnames []
 			env.bind(fmt.Sprintf("arg%d", i), args[i], ptypes[i])
 		}
 	}
+	if k.Kind == "func" && sig != nil && sig.Recv() != nil && len(args) > 0 && len(ptypes) > 0 {
+		env.bind("self", args[0], ptypes[0])
+	}
 	for _, cl := range k.Requires {
 		ex, err := cl.Parse()
 		if err != nil {
@@ -326,6 +329,15 @@ func (e *Eval) applyContract(fr *Frame, k *Contract, pkg *ssa.Package, pnames []
 			c.Unsupported("%v", err)
 			continue
 		}
+		c.Assert(implies(normalCond, env2.evalBool(ex)))
+	}
+	for _, cl := range k.BridgeEnsures {
+		ex, err := cl.Parse()
+		if err != nil {
+			c.Unsupported("%v", err)
+			continue
+		}
+		c.Assume("BRIDGE (byte-array contract restated over the ghost byte sequence; assumed): " + k.Pkg + "." + k.Name + ": " + cl.Text)
 		c.Assert(implies(normalCond, env2.evalBool(ex)))
 	}
 	for _, cb := range cbs {
@@ -807,6 +819,8 @@ func (e *Eval) declGhost(name string) {
 		e.declHeld()
 	case "$closed":
 		e.c.DeclComp("$closed", "(Array Int Bool)")
+	case "$wr", "$rd":
+		e.c.DeclComp(name, "(Array Int BSeq)")
 	default:
 		if gv, ok := e.p.cs.GhostVars[name]; ok {
 			env := e.newEnv(e.p.pkgs[gv[1]], e.entry, e.entry)
